@@ -108,7 +108,13 @@ def run(tier, seed, build):
         else:
             res.count("second-generation-equal")
         res.sample({"label": label, "source": src, "ir_changed": before != mid}, cap=4)
-    res.assumptions = ["serialise_irs is the observable IR (C18 is about its canonicity)"]
+    # ---- the whole-pipeline model predicts the IR that result generation leaves behind (source text -> FileIr
+    # after `generate_results_from_ir`, compared set by set with basenames), on generated whole modules
+    from props import pipeline
+    pipeline.run_pipeline_stage(res, random.Random(seed + 7103), 25 if tier == "quick" else 300, model,
+                                cli_sample=0, curated=False)
+    res.assumptions = ["serialise_irs is the observable IR (C18 is about its canonicity)",
+                       "pipeline stage: see C03 (follow-imports 0; hash-order dependent modules skipped)"]
     return res
 
 
